@@ -241,6 +241,34 @@ func Drive(w *ev.Writer, o Opts) error {
 			}
 		}
 	}
+	// long vectors (C->S): for every vector field, lengths just above 65536/(Go element size + 1) and 65536/(size) — the
+	// region where a decoder that trusts a capped pre-allocation instead of the wire count would cut the vector
+	job := 0
+	for _, vf := range vecFields(s) {
+		lens := []int{65536/(vf.Size+1) + 1, 65536/vf.Size + 1}
+		if thorough {
+			lens = append(lens, 65536/(vf.Size+1), 65536/vf.Size)
+		}
+		for _, n := range lens {
+			job++
+			if job%o.Shards != o.Shard {
+				continue
+			}
+			tyName, op := vf.Decl, "Enc"
+			if vf.Fn {
+				op = "EncBare"
+			} else if len(s.CtorsOf(vf.Result)) > 1 {
+				tyName = vf.Result
+			}
+			tg := target{tyName, op, goTypes[tyName]}
+			r.reset(fmt.Sprintf("long-vector:%s", tyName))
+			g := &tlval.TvGen{R: rng, MaxVec: 2, Budget: 200, VecLen: map[string]int{vf.Decl + "." + vf.Field: n}}
+			val := g.Value(s, tyOf(vf.Decl))
+			if err := r.roundTrip(tg, val, rng, 0); err != nil {
+				return err
+			}
+		}
+	}
 	w.Emit(ev.M{"k": "End", "events": w.N})
 	return nil
 }
@@ -251,6 +279,69 @@ func seq(a, b int) []int {
 		r = append(r, i)
 	}
 	return r
+}
+
+// VecSizes reports, for every vector-typed field of the schema, the Go size of one element of the slice the bindings
+// use for it (reflect.Type.Size — what tl.decodeVector's pre-allocation cap is computed from). The runner derives the
+// long-vector length classes from these numbers.
+type VecField struct {
+	Decl, Result, Field, Go string
+	Fn                      bool
+	Size                    int
+}
+
+func vecFields(s *tlval.TvSchema) []VecField {
+	var out []VecField
+	one := func(d *tlval.TvDecl, st reflect.Type, isFn bool) {
+		k := 0
+		for _, f := range d.Fields {
+			if f.Ty.Vector == nil && f.Ty.Name == "true" {
+				continue
+			}
+			if k >= st.NumField() {
+				return
+			}
+			ft := st.Field(k).Type
+			k++
+			if f.Ty.Vector != nil && ft.Kind() == reflect.Slice {
+				out = append(out, VecField{d.Ctor, d.Result, f.Name, ft.String(), isFn, int(ft.Elem().Size())})
+			}
+		}
+	}
+	for i := range s.Types {
+		d := &s.Types[i]
+		cs := s.CtorsOf(d.Result)
+		if len(cs) == 1 {
+			if t, ok := goTypes[d.Ctor]; ok {
+				one(d, t, false)
+			}
+			continue
+		}
+		if t, ok := goTypes[d.Result]; ok {
+			for j, c := range cs {
+				if c.Ctor == d.Ctor && j+1 < t.NumField() {
+					one(d, t.Field(j+1).Type, false)
+				}
+			}
+		}
+	}
+	for i := range s.Functions {
+		if t, ok := goTypes[s.Functions[i].Ctor]; ok {
+			one(&s.Functions[i], t, true)
+		}
+	}
+	return out
+}
+
+func VecSizes(schemaPath string, w *ev.Writer) error {
+	s, err := tlval.TvLoadSchema(schemaPath)
+	if err != nil {
+		return err
+	}
+	for _, f := range vecFields(s) {
+		w.Emit(ev.M{"k": "VecSize", "decl": f.Decl, "result": f.Result, "field": f.Field, "fn": f.Fn, "size": f.Size, "go": f.Go})
+	}
+	return nil
 }
 
 // Names lists what Drive covers (so that the runner can check it against the AST).
